@@ -10,6 +10,8 @@ From XcpModel Require Import Base ConcBlock ConcFile ConcOutcome.
 From XcpProofs Require Import ConcBlockProofs ConcFileProofs ConcOutcomeProofs.
 From XcpModel Require Import Paths Walker.
 From XcpProofs Require Import WalkerProofs.
+From XcpModel Require Import Extracted.
+From XcpProofs Require Import ExtractedOk.
 From Coq Require Import Permutation.
 Local Open Scope nat_scope.
 
@@ -99,6 +101,11 @@ Proof.
   - exists d'. apply in_or_app. now left.
 Qed.
 
+(* tie to the current source (translator): block jobs of one file run concurrently on the SAME two descriptors;
+   their user-space fallback must therefore be positional (pread/pwrite), which is what makes block writes commute *)
+Theorem C06_src_block_fallback_is_positional : x_read_bytes_steps = [50%N] /\ x_write_bytes_steps = [51%N].
+Proof. exact x_positional_io_ok. Qed.
+
 (* non-vacuity: a concrete schedule of a two-file, three-block workload with
    W = 2, Q = 1 reaches a final state, blocks completing out of order *)
 Example C06_nonvacuous :
@@ -118,3 +125,4 @@ Print Assumptions C06_metadata_after_last_write.
 Print Assumptions C06_blocks_exactly_once.
 Print Assumptions C06_trace_judgement_sound.
 Print Assumptions C06_directory_before_children.
+Print Assumptions C06_src_block_fallback_is_positional.
